@@ -137,7 +137,8 @@ def sc_dense(V, P, cfg):
         if symm or herm:
             for j in range(n - 1):
                 V.assume(W[j] <= W[j + 1], "eigh: ascending eigenvalues")
-        factor.register("eig", (W, Q))
+        factor.register("eig", (W, Q, np.array(np.asarray(A), dtype=object, copy=True),
+                                (np.array(np.asarray(B), dtype=object, copy=True) if gen else None)))
     A_before = np.array(np.asarray(A), dtype=object, copy=True) if V.symbolic else None
     B_before = np.array(np.asarray(B), dtype=object, copy=True) if (V.symbolic and gen) else None
     m.response()
@@ -326,6 +327,8 @@ def replay(cfg, label, env, case):
                 if not ok:
                     bad.append("order[%d]" % i)
             hit = [b for b in bad if label.startswith(b.split("[")[0])]
+            if label.startswith("library-precondition:"):
+                hit = bad        # LAPACK was called outside the oracle's contract: on the real library any failing clause shows it
             return dict(reproduced=bool(hit), detail=dict(failed=bad, W=np.asarray(W).tolist()))
         return _replay_sparse(cfg, label, V)
     except Exception as e:
